@@ -10,6 +10,7 @@ for sid in ids:
     prop = sid.split("-")[0]
     meta_p = f"{d}/meta.json"
     meta = json.load(open(meta_p)) if os.path.exists(meta_p) else {}
+    prev_caught = meta.get("caught")
     out = subprocess.run([f"{V}/tools/seedcheck.sh", d, prop], capture_output=True, text=True).stdout
     clean = re.search(r"demo_clean_rc=(\d+)", out)
     patched = re.search(r"demo_patched_rc=(\d+)", out)
@@ -33,6 +34,9 @@ for sid in ids:
                          "violation_kind": viol.group(1) if viol else None, "violation": (viol.group(2)[:300] if viol else None)},
         "caught": bool(chk and chk.group(2) == "1"),
     })
+    if sid[-1] in "cdef" and "first_pass_caught" not in meta:
+        # (rounds after the first: what the checks did before they were strengthened against this change)
+        meta["first_pass_caught"] = prev_caught if prev_caught is not None else meta["caught"]
     json.dump(meta, open(meta_p, "w"), indent=1)
     rows.append(meta)
     print(sid, "caught" if meta["caught"] else "MISSED", meta["confirmed"], flush=True)
